@@ -12,6 +12,7 @@ from checks import strings_common as sc
 from vlib import core
 
 THEOREMS = ["C11_index_inv", "C11_dedup", "C11_unit", "C11_counts", "C11_json_roundtrip", "C11_json_valid", "C11_spec",
+            "C11_non_string_not_indexed", "C11_literal_kinds_indexed", "C11_literal_kinds_indexed_default", "C11_locales_independent",
             "C11_old_refuted", "C11_old_refuted_nbsp"]
 PROPS = "theories/Props/C11.v"
 REGISTRY = {
@@ -77,7 +78,33 @@ def unit_cases(pi, proj, res):
             len(proj.locales), sc.coq_group(u["tree"]), sc.coq_strs(u["strings"]), u["count"],
             core.coq_opt(text, core.coq_str))
         meta["stats"] = sc.tree_stats(u["tree"])
+        meta["literals_not_selecting_their_text"] = bad_literals(u["tree"], u["strings"])[:5]
         out.append((term, meta))
+    return out
+
+
+def bad_literals(tree, table, path=()):
+    """string literals of a dumped tree whose index does not select their text (for the violation report)"""
+    out = []
+
+    def pv(v, where):
+        if v[0] == "L":
+            if not (0 <= v[2] < len(table)) or table[v[2]] != v[1]:
+                out.append({"key": ".".join(where), "text": v[1], "index": v[2], "table_length": len(table)})
+        elif v[0] in ("R", "B"):
+            for x in v[1]:
+                pv(x, where)
+        elif v[0] == "C":
+            pv(v[1], where)
+        elif v[0] == "P":
+            for x in v[1]:
+                pv(x, where)
+            pv(v[2], where)
+    for k, e in tree:
+        if e[0] == "E":
+            pv(e[1], path + (k,))
+        else:
+            out.extend(bad_literals(e[4], table, path + (k,)))
     return out
 
 
@@ -152,6 +179,9 @@ DIMS = {
     "dup": ["none", "exact_within", "near_within", "foreign_key", "across_other_locales", "across_default"],
     "cls": ["none"] + sc.CLASSES,
     "size": ["0", "1", "2-9", "10+"],
+    # literal kinds of this locale's values against the default locale's, key by key
+    "litmix": ["none", "string_where_default_is_not", "non_string_where_default_is_string", "other_non_string_type"],
+    "first_to_differ": ["no", "yes"],       # for some key this locale is the first, in merge order, whose literal type differs
 }
 
 
@@ -168,6 +198,12 @@ def infeasible(A, a, B, b):
         return "a non-default locale that another one inherits from needs three locales"
     if g("nloc") == "2" and g("dup") == "across_other_locales":
         return "sharing among non-default locales needs three locales"
+    if g("litmix") not in (None, "none") and (g("nloc") == "1" or g("role") == "default"):
+        return "literal kinds are compared with the default locale's"
+    if g("first_to_differ") == "yes" and (g("nloc") == "1" or g("role") == "default" or g("litmix") == "none"):
+        return "literal kinds are compared with the default locale's"
+    if g("size") == "0" and g("litmix") == "string_where_default_is_not":
+        return "an empty table has no text"
     if g("size") == "0" and (g("cls") not in (None, "none") or g("kinds") == "L" or g("dup") not in (None, "none")):
         return "an empty table has no text"
     if g("size") == "1" and g("dup") == "near_within":
@@ -239,6 +275,38 @@ def unit_tags(proj, ns, loc, res):
     t["cls"] = cl or {"none"}
     n = len(table)
     t["size"] = {"0" if n == 0 else "1" if n == 1 else "2-9" if n < 10 else "10+"}
+    mix, first = set(), False
+
+    def kind_of(node):
+        if node is None or node["kind"] in ("absent", "null"):
+            return None                   # defaulted: leaves the state of the key alone
+        if node["kind"] == "plain":
+            return "s"
+        if node["kind"] == "other":
+            return sc.lit_type(node.get("json")) or "x"      # x: not a literal (a builder from then on)
+        return "x"
+
+    def walk(dtree, trees_before, tree):
+        nonlocal first
+        here = dict(tree)
+        for k, dnode in dtree:
+            node = here.get(k)
+            if dnode["kind"] == "sub":
+                if node is not None and node["kind"] == "sub":
+                    walk(dnode["sub"], [dict(tb).get(k, {}).get("sub") or [] for tb in trees_before], node["sub"])
+                continue
+            dk, mk = kind_of(dnode), kind_of(node)
+            if dk in (None, "x") or mk in (None, "x") or dk == mk:
+                continue
+            mix.add("string_where_default_is_not" if mk == "s" else
+                    "non_string_where_default_is_string" if dk == "s" else "other_non_string_type")
+            if all(kind_of(dict(tb).get(k)) in (None, dk) for tb in trees_before):
+                first = True
+    if li > 0:
+        per = proj.units[ns]
+        walk(per[proj.locales[0]], [per[l] for l in proj.locales[1:li]], per[loc])
+    t["litmix"] = mix or {"none"}
+    t["first_to_differ"] = {"yes" if first else "no"}
     return t
 
 
@@ -286,8 +354,15 @@ def params_for(rng, pair):
                 role_idx = 3
         else:
             role_idx = 3
+    if v.get("litmix") not in (None, "none") or v.get("first_to_differ") == "yes":
+        P["nloc"] = max(P["nloc"], 2 if "nloc" in v else 4)
+        if role_idx is None and "role" not in v:
+            role_idx = 1
     if "size" in v:
         P["mode"] = {"0": "zero", "1": "one", "2-9": "small", "10+": "rich"}[v["size"]]
+        if v["size"] in ("0", "1") and (v.get("litmix") not in (None, "none", "other_non_string_type") or v.get("first_to_differ") == "yes"):
+            P["mode"] = "mixone"
+            P["nloc"] = max(P["nloc"], 4) if "nloc" not in v else P["nloc"]
         if P["mode"] in ("one", "small") and role_idx == 1 and v.get("defaulting") != "whole_group":
             P["depth"] = 0 if "depth" not in v else P["depth"]
     c = v.get("cls")
@@ -325,7 +400,7 @@ def run(ctx):
                     continue
                 projects.append(sc.structured_project(rng, nloc=nloc, nns=nns, depth=depth, mode="rich", inherit=(k % 3 != 0),
                                                       ascii_idx=((k % nloc,) if k % 4 == 0 else ())))
-    for mode in ("zero", "one", "small"):
+    for mode in ("zero", "one", "small", "mixone"):
         for nloc in (1, 2, 3, 4):
             for j in range(3):
                 k += 1
@@ -333,6 +408,7 @@ def run(ctx):
                                                       ascii_idx=(tuple(range(nloc)) if k % 5 == 0 else ()),
                                                       focus=sc.CLASSES[k % len(sc.CLASSES)]))
     items, metas, skipped, panics, shape = [], [], [], [], []
+    ns_items, ns_metas = [], []
     tagged = []
     rounds = 0
     todo = projects
@@ -346,6 +422,12 @@ def run(ctx):
             if r["status"] != "OK":
                 skipped.append({"project": pi, "error": r["err"]})
                 continue
+            for ns in (p.namespaces or [None]):
+                trees = [r["units"][(n2, loc)].get("tree") for (n2, loc) in r["order"] if n2 == ns]
+                if "kinds" in r and ns in r["kinds"] and all(t is not None for t in trees):
+                    ns_items.append("(mk_nscase %s %s)" % (core.coq_list([sc.coq_group(t) for t in trees]), sc.coq_kinds(r["kinds"][ns])))
+                    ns_metas.append({"project": pi, "namespace": ns, "merge_order": [loc for (n2, loc) in r["order"] if n2 == ns],
+                                     "config_locales": p.config_locales(), "impl_final_kinds": r["kinds"][ns]})
             for term, meta in unit_cases(pi, p, r):
                 if term is None:
                     shape.append(meta)
@@ -366,6 +448,9 @@ def run(ctx):
                 todo.append(sc.structured_project(rng, **params_for(rng, pair)))
     projects_total = n_done
     codes = core.coq_eval(ctx, "c11", PRE, items, "check_x", timeout=1200)
+    ns_codes = core.coq_eval(ctx, "c11ns", PRE, ns_items, "check_ns", timeout=1200)
+    ns_disagree = [m for m, c in zip(ns_metas, ns_codes) if c == 2]
+    ns_unmodelled = sum(c == 1 for c in ns_codes)
     rendered = rendered_text_probe(ctx, exe)
     if not ctx.quick:
         for _ in range(2):
@@ -403,6 +488,10 @@ def run(ctx):
         core.violation(ctx, "spec", {"failing_input": rendered["mismatches"][0], "count": len(rendered["mismatches"]),
                                      "explanation": "generated code (dynamic_load + ssr): the accessor of a plain key does not render "
                                                     "the text of the translation source: the index it reads does not select that text"})
+    elif ns_disagree:
+        core.violation(ctx, "correspondence", {
+            "broken": "correspondence Parser/Strings.v (merge_value: per-key InterpolOrLit state) vs ParsedValue::merge",
+            "first_disagreeing_input": ns_disagree[0], "disagreements": len(ns_disagree)}, no_input=True)
     elif disagree or oracle_mismatch or shape or not ok:
         core.violation(ctx, "correspondence", {
             "broken": ("theorem/audit: " + "; ".join(problems)) if not ok else
@@ -441,7 +530,9 @@ def run(ctx):
         "pairwise_coverage": sc.pairwise(tagged, DIMS, infeasible), "coverage_rounds": rounds,
         "projects": projects_total, "projects_rejected_by_parser": len(skipped), "rejected_examples": skipped[:3],
         "traces_validated_against_impl": len(metas),
-        "disagreements": len(disagree), "spec_failures_on_impl": len(bad_spec),
+        "disagreements": len(disagree) + len(ns_disagree), "spec_failures_on_impl": len(bad_spec),
+        "namespaces_merged_in_the_model": len(ns_items), "key_state_disagreements": len(ns_disagree),
+        "namespaces_outside_the_model": ns_unmodelled,
         "decoder_mismatch_coq_vs_python": len(oracle_mismatch), "unexpected_shapes": len(shape), "panics": len(panics),
         "units_with_non_ascii_or_control": nonascii, "value_kinds_seen": kinds,
         "generated_code_accessors_rendered": rendered["accessors_rendered"],
